@@ -132,7 +132,8 @@ theorem setSearchResult_preserves (b : Book) (i mv : Nat) (sc : Int) (t : Nat) (
     unfold peOk at this ⊢
     rw [(hnm5 j).2, ← this]
     apply pathErrOf_congr
-    · exact hss.depth j
+    · rw [hss.depth j]
+    · rw [hss.depth j]
     · exact (hnm5 j).1
     · exact hss.parents j
     · intro _; exact (hnm5 j).2
